@@ -38,15 +38,18 @@ TreeIsCurrent == hist # <<>> => tree \in {Len(hist), 0}
 Export == Len(hist) = MaxCalls => PrintT(<<"VP", ToJson([hist |-> hist])>>)
 
 \* ---- the per-call contract on a logged observation (used by TraceVerify)
-\* ev: [cls, line, offset, raised, nsyntax, fbline, blankfb, tree_ok]
+\* ev: [cls, line, offset, raised, nsyntax, fbline, blankfb, tree_ok, tbline]   (tbline: the line of the traceback frame
+\* shown inside the syntax feedback, 0 when there is none)
 CallOk(ev) == /\ ~ev.raised
               /\ (ev.nsyntax >= 1) <=> Rejected(ev.cls)
               /\ (Rejected(ev.cls) /\ ev.line # 0) => ev.fbline = ev.line + ev.offset
               /\ ev.cls = "blank" => ev.blankfb
               /\ ~Rejected(ev.cls) => ev.tree_ok
+              /\ (Rejected(ev.cls) /\ ev.line # 0 /\ ev.tbline # 0) => ev.tbline = ev.line + ev.offset
 FailMask(ev) == (IF ev.raised THEN 1 ELSE 0)
               + (IF ~ev.raised /\ ((ev.nsyntax >= 1) # Rejected(ev.cls)) THEN 2 ELSE 0)
               + (IF ~ev.raised /\ Rejected(ev.cls) /\ ev.line # 0 /\ ev.nsyntax >= 1 /\ ev.fbline # ev.line + ev.offset THEN 4 ELSE 0)
               + (IF ~ev.raised /\ ev.cls = "blank" /\ ~ev.blankfb THEN 8 ELSE 0)
               + (IF ~ev.raised /\ ~Rejected(ev.cls) /\ ~ev.tree_ok THEN 16 ELSE 0)
+              + (IF ~ev.raised /\ Rejected(ev.cls) /\ ev.line # 0 /\ ev.tbline # 0 /\ ev.tbline # ev.line + ev.offset THEN 32 ELSE 0)
 =============================================================================
